@@ -160,8 +160,10 @@ class Spec(object):
     def stop(self, why): self.stopped = why
 
     def bad(self, check, detail):
-        # qualifier: the same symptom has different root causes in a session whose transaction was damaged by a failed flush / load
-        if self.db_error and not check.endswith(('-by-unsaved-object', '-after-remove')): check += '-after-db-error'
+        # In a session whose transaction was damaged by a failed flush / load every read can be wrong (orphan rows, reset pending sets, the
+        # saved_objects assertion): one root cause with an unbounded family of symptoms, keyed by the root cause and a coarse class only.
+        if self.db_error and not check.endswith(('-by-unsaved-object', '-after-remove')):
+            check = 'c10-read-assertion-after-db-error' if check == 'c10-read-assertion' else 'c10-read-after-db-error'
         self.violations.append((check, detail))
         self.stopped = check
 
@@ -457,6 +459,6 @@ class Spec(object):
         return self.bad_dump('c09-committed-value-differs', 'expected %r, got %r' % (want, d))
 
     def bad_dump(self, check, detail):
-        if self.db_error_at_commit: check += '-after-db-error'
+        if self.db_error_at_commit: check = 'c09-committed-state-after-db-error'      # same: one root cause, many symptoms
         self.stopped = check
         return (check, detail)
